@@ -7,6 +7,7 @@ package pbytes
 //@ property C19
 //@ func (*Pool).Get
 //@   params p c
+//@   locals v x bts
 //@   mode bv
 //@   requires p != nil && pool.inv(p.pool) && p.pool.stepSize <= 1<<47 && 0 <= c && c <= 1<<47
 //@   requires SIall: forallint(i, forallv(x, *[]byte, forallint(s, pool.SI(p.pool, i, x, s))))
